@@ -88,7 +88,13 @@ HistEq(c, h1, h2) ==
         \/ (IsVal(h1[k]) /\ IsVal(h2[k]) /\ c.cmp = "nostamp" /\ h1[k].c = h2[k].c)
 StripStamps(h) == [k \in DOMAIN h |-> IF IsVal(h[k]) THEN h[k].c ELSE h[k]]
 
-UTDobs(cx, s, j) == UpToDate(cx.c, s.outs,
+(* the current output of every job, as a driver can know it: what the engine reports, or - for a
+   job whose evaluation was cut short before it produced anything (a validated Ephemeral not yet
+   settled, or still running, at an abort) - its recorded one *)
+CurOuts(cx, s) ==
+  LET have == DOMAIN s.outs \cup {u \in cx.N : OKey(u) \in DOMAIN cx.c.hist0}
+  IN [u \in have |-> IF u \in DOMAIN s.outs THEN s.outs[u] ELSE cx.c.hist0[OKey(u)]]
+UTDobs(cx, s, j) == UpToDate(cx.c, CurOuts(cx, s),
                              {x \in DOMAIN cx.c.file0 : cx.c.file0[x] # Garbage}, j)
 
 (***************************************************************************)
@@ -146,7 +152,7 @@ C03b(cx, s) ==
        /\ j \notin ToSet(cx.c.dirty)
        /\ DOMAIN cx.c.built[j] = Ups(cx.c, j)
        /\ \A u \in Ups(cx.c, j) :
-             u \in DOMAIN s.outs /\ ~Altered(cx.c, j, cx.c.built[j][u], s.outs[u]))
+             u \in DOMAIN CurOuts(cx, s) /\ ~Altered(cx.c, j, cx.c.built[j][u], CurOuts(cx, s)[u]))
 
 (***************************************************************************)
 (* C04  Only necessary work is executed                                    *)
@@ -278,6 +284,12 @@ C12b(cx, s, unchanged) ==
     \A j \in s.started : cx.c.kind[j] = "A" \/ FeedsAlways(cx.c, j))
 C12c(cx, s, nh, h1, unchanged) ==
   V(unchanged /\ Clean(s) /\ nh = "ok", HistEq(cx.c, h1, cx.c.hist0))
+(* "does nothing" includes: nothing fails.  The driver injects no fault into such an evaluation, so a
+   job reported failed or upstream-failed can only come from the engine itself (a spurious
+   changed-output error, an internal error). *)
+C12d(cx, s, nh, unchanged) ==
+  V(unchanged /\ Alive(s) /\ s.fin /\ ~s.aborted /\ ~s.aborting /\ s.faildel = {},
+    s.failed = {} /\ s.changed = {} /\ s.upf = {} /\ nh = "ok")
 
 (***************************************************************************)
 (* C13  Ephemeral cleanup is safe, happens once, and is not forgotten      *)
